@@ -337,13 +337,13 @@ func genQuery(rt *rapid.T, r *Run) (Op, bool) {
 	q := &QueryOp{Kind: pick(rt, []string{"all", "all", "byid", "like", "in", "count", "type", "ngt", "xseq"}, "q.kind")}
 	switch q.Kind {
 	case "byid":
-		q.Str = pick(rt, defaultKeys, "q.id")
+		q.Str = pick(rt, append([]string{"zz"}, w.Model.Keys(op.C)...), "q.id")
 	case "like":
-		q.Str = pick(rt, []string{"a%", "%", "k%", "b", "c%"}, "q.pat")
+		q.Str = pick(rt, []string{"a%", "%", "k%", "b", "c%", "q%", "L%"}, "q.pat")
 	case "in":
 		n := rapid.IntRange(1, 3).Draw(rt, "q.nin")
 		for i := 0; i < n; i++ {
-			q.IDs = append(q.IDs, pick(rt, append([]string{"zz"}, defaultKeys...), "q.inid"))
+			q.IDs = append(q.IDs, pick(rt, append([]string{"zz", "a"}, w.Model.Keys(op.C)...), "q.inid"))
 		}
 	case "type":
 		q.Str = pick(rt, []string{"t1", "t2", "x"}, "q.type")
